@@ -300,4 +300,16 @@ func init() {
 			"not decided: tree equality as a whole (needs an HTML5 tree-construction model), the unconditional omission of li/td/tr/... end tags in contexts with script-supporting siblings, html/head/body tag removal, the right-trim look-ahead, attribute quoting/escaping (EscapeAttrVal, dependency), entity rewriting, '</script' inside script text, Keep* combinations",
 		},
 	})
+	registerProp(&PropSpec{
+		ID:       "C01",
+		Patterns: []string{"./js"},
+		Custom:   []string{"partial", "jstables"},
+		Partial:  []string{modPath + "/js.isBooleanExpr", modPath + "/js.endsInIf"},
+		Notes: []string{
+			"operator table lemmas (jstables, exhaustive ground evaluation): every entry of binaryOpPrecMap / binaryLeftPrecMap / binaryRightPrecMap / unaryOpPrecMap / unaryPrecMap of the real js/util.go equals the level the ECMAScript expression grammar gives that operator (reference/js-operators.json), no operator of the grammar is missing (a missing entry reads as the lowest level - F18 found and fixed: the logical assignment operators were missing and a&&=(b,c) lost its parentheses), nothing extra, and the dependency's OpPrec levels are ordered by binding strength",
+			"isBooleanExpr is SOUND (answers true only for expressions that evaluate to a Boolean) and endsInIf is COMPLETE (answers true for every statement whose printed form ends with an else-less if) - postconditions on the real recursive functions, proved branch by branch from ECMAScript facts that are assumed at the site where the code inspects the corresponding node form (`at ... assume [ES ...]`, listed under assumptions); the recursive calls are used through the function's own contract",
+			"version gates (C16) and renaming (C02) are separate properties; their contracts are not repeated here",
+			"not decided: observational equivalence of whole programs - it needs an operational semantics of ECMAScript and an induction over the printer and every rewrite (statement merging, ASI, hoisting, optimizeCondExpr/optimizeUnaryExpr, isTruthy/isFalsy, hasSideEffects, string/number/template/regexp literal rewriting); the parenthesisation logic that USES the tables (groupExpr and the printer) is not verified, only the tables; A-parser: AST nodes are non-nil",
+		},
+	})
 }
